@@ -222,9 +222,14 @@ theorem mkRows_getUnsafe {α : Type} (r1 : List α) (rs : List (List α)) (hw : 
 
 theorem absSlot_mk {α : Type} (g : Grid α) (m : Bool) : absSlot (⟨g, m⟩ : Slot α) = if m then none else some g := rfl
 
-theorem regStep_refines {α : Type} (st : List (Slot α)) (op : RegOp) :
-    (regStep st op).map (List.map absSlot) = specStep (st.map absSlot) op := by
+theorem regStep_refines {α : Type} (n : Nat) (st : List (Slot α)) (op : RegOp) :
+    (regStep n st op).map (List.map absSlot) = specStep n (st.map absSlot) op := by
   cases op with
+  | defaultCtor d =>
+    simp only [regStep, specStep, List.getElem?_map]
+    cases hd : st[d]? with
+    | none => simp
+    | some y => simp [absSlot, List.map_set]
   | copyCtor d s =>
     simp only [regStep, specStep, List.getElem?_map]
     by_cases hds : (d == s) = true
@@ -290,14 +295,14 @@ theorem regStep_refines {α : Type} (st : List (Slot α)) (op : RegOp) :
       | none => simp
       | some y => simp [absSlot, List.map_set, Grid.swap]
 
-theorem regRun_refines {α : Type} (st : List (Slot α)) (prog : List RegOp) :
-    (regRun st prog).map (List.map absSlot) = specRun (st.map absSlot) prog := by
+theorem regRun_refines {α : Type} (n : Nat) (st : List (Slot α)) (prog : List RegOp) :
+    (regRun n st prog).map (List.map absSlot) = specRun n (st.map absSlot) prog := by
   induction prog generalizing st with
   | nil => rfl
   | cons op ops ih =>
     simp only [regRun, specRun]
     rw [← regStep_refines]
-    cases regStep st op with
+    cases regStep n st op with
     | none => rfl
     | some st' => simpa using ih st'
 
@@ -404,12 +409,21 @@ theorem gridLt_iff (a b : Grid Int) : a.lt b = true ↔ GridLt a b := by
     rw [this]
     simp only [if_true, lexLess_iff, h, false_and, or_false]
 
-theorem specStep_mem {α : Type} (st st' : List (Option (Grid α))) (op : RegOp) (h : specStep st op = some st')
-    (v : Grid α) (hv : some v ∈ st') : some v ∈ st := by
+theorem specStep_mem {α : Type} (n : Nat) (st st' : List (Option (Grid α))) (op : RegOp) (h : specStep n st op = some st')
+    (v : Grid α) (hv : some v ∈ st') : some v ∈ st ∨ v = Grid.empty n := by
   have key : ∀ (l : List (Option (Grid α))) (i : Nat) (x : Option (Grid α)), some v ∈ l.set i x →
       some v ∈ l ∨ some v = x := fun l i x hm => List.mem_or_eq_of_mem_set hm
   cases op with
+  | defaultCtor d =>
+    simp only [specStep] at h
+    split at h
+    · injection h with h; subst h
+      rcases key _ _ _ hv with h | h
+      · exact Or.inl h
+      · injection h with h; exact Or.inr h
+    · simp at h
   | copyCtor d s =>
+    refine Or.inl ?_
     simp only [specStep] at h
     split at h
     · simp at h
@@ -421,6 +435,7 @@ theorem specStep_mem {α : Type} (st st' : List (Option (Grid α))) (op : RegOp)
         · rw [h]; exact List.mem_of_getElem? hs
       · simp at h
   | copyAssign d s =>
+    refine Or.inl ?_
     simp only [specStep] at h
     split at h
     · rename_i w _ hs _
@@ -430,6 +445,7 @@ theorem specStep_mem {α : Type} (st st' : List (Option (Grid α))) (op : RegOp)
       · rw [h]; exact List.mem_of_getElem? hs
     · simp at h
   | moveCtor d s =>
+    refine Or.inl ?_
     simp only [specStep] at h
     split at h
     · simp at h
@@ -443,6 +459,7 @@ theorem specStep_mem {α : Type} (st st' : List (Option (Grid α))) (op : RegOp)
         · simp at h
       · simp at h
   | moveAssign d s =>
+    refine Or.inl ?_
     simp only [specStep] at h
     split at h
     · rename_i x _ hs _
@@ -458,6 +475,7 @@ theorem specStep_mem {α : Type} (st st' : List (Option (Grid α))) (op : RegOp)
         · simp at h
     · simp at h
   | swapMember a b =>
+    refine Or.inl ?_
     simp only [specStep] at h
     split at h
     · rename_i x y ha hb
@@ -469,6 +487,7 @@ theorem specStep_mem {α : Type} (st st' : List (Option (Grid α))) (op : RegOp)
       · rw [h]; exact List.mem_of_getElem? ha
     · simp at h
   | swapFree a b =>
+    refine Or.inl ?_
     simp only [specStep] at h
     split at h
     · rename_i x y ha hb
@@ -480,17 +499,19 @@ theorem specStep_mem {α : Type} (st st' : List (Option (Grid α))) (op : RegOp)
       · rw [h]; exact List.mem_of_getElem? ha
     · simp at h
 
-theorem specRun_mem {α : Type} (st st' : List (Option (Grid α))) (prog : List RegOp) (h : specRun st prog = some st')
-    (v : Grid α) (hv : some v ∈ st') : some v ∈ st := by
+theorem specRun_mem {α : Type} (n : Nat) (st st' : List (Option (Grid α))) (prog : List RegOp)
+    (h : specRun n st prog = some st') (v : Grid α) (hv : some v ∈ st') : some v ∈ st ∨ v = Grid.empty n := by
   induction prog generalizing st with
-  | nil => simp only [specRun, Option.some.injEq] at h; subst h; exact hv
+  | nil => simp only [specRun, Option.some.injEq] at h; subst h; exact Or.inl hv
   | cons op ops ih =>
     simp only [specRun] at h
-    cases hs : specStep st op with
+    cases hs : specStep n st op with
     | none => simp [hs] at h
     | some st1 =>
       simp only [hs, Option.bind_some] at h
-      exact specStep_mem st st1 op hs v (ih st1 h)
+      rcases ih st1 h with h1 | h1
+      · exact specStep_mem n st st1 op hs v h1
+      · exact Or.inr h1
 
 theorem grid_eq_iff {α : Type} (a b : Grid α) : a = b ↔ a.size = b.size ∧ a.cells = b.cells := by
   cases a; cases b; simp
@@ -723,5 +744,86 @@ theorem next_between {mn sp p : Pos} (hne : mn ≠ []) (hp : InBox mn sp p) : Be
     rw [hs.2 he]
     simp only [endPos, hp.minLessSup, if_true]
     exact endInit_between (by omega) hne hp.minLessSup
+
+/-! ## fill with a function that reads the grid being filled -/
+
+theorem within_zeros (d : List Int) (hd : NonNeg d) : Within (zeros d) d d := by
+  induction d with
+  | nil => simp [zeros, Within]
+  | cons e es ih =>
+    simp only [zeros, List.map_cons, Within]
+    exact ⟨Int.le_refl _, Int.le_refl _, ih (fun x hx => hd x (by simp [hx]))⟩
+
+theorem foldlM_dep {α : Type} (d : List Int) (hne : d ≠ []) (hd : NonNeg d) (v : Pos → α) (σ : Pos → Pos)
+    (h : Pos → α → α) (hσ : ∀ p, InRange d p → InRange d (σ p) ∧ lin p d ≤ lin (σ p) d) :
+    ∀ (todo done : List Pos), done ++ todo = box (zeros d) d →
+      todo.foldlM (fun (g : Grid α) p => do
+          let x ← (h p) <$> g.getUnsafe (σ p)
+          g.setUnsafe p x)
+        ⟨d, (box (zeros d) d).map (fun q => if q ∈ done then h q (v (σ q)) else v q)⟩
+      = .ok ⟨d, (box (zeros d) d).map (fun q => if q ∈ done ++ todo then h q (v (σ q)) else v q)⟩ := by
+  intro todo
+  induction todo with
+  | nil => intro done _; simp only [List.foldlM_nil, List.append_nil]; rfl
+  | cons p todo ih =>
+    intro done hB
+    have hpB : p ∈ box (zeros d) d := by rw [← hB]; simp
+    have hp : InRange d p := (mem_box (length_zeros d) p).mp hpB
+    obtain ⟨hsr, hsl⟩ := hσ p hp
+    have hpw : (done ++ p :: todo).Pairwise (fun a b => lin a d < lin b d) := by
+      rw [hB]; exact box_pairwise_lin (within_zeros d hd)
+    have hnot : σ p ∉ done := by
+      intro hm
+      have := (List.pairwise_append.mp hpw).2.2 (σ p) hm p (by simp)
+      omega
+    let w : Pos → α := fun q => if q ∈ done then h q (v (σ q)) else v q
+    have hden : Denotes (⟨d, (box (zeros d) d).map w⟩ : Grid α) w := ⟨hne, hd, rfl⟩
+    have hget : (⟨d, (box (zeros d) d).map w⟩ : Grid α).getUnsafe (σ p) = .ok (v (σ p)) := by
+      rw [get_of_denotes hden hsr]
+      simp [w, hnot]
+    have hi := (lin_inRange hp hd).2
+    have hidx : (box (zeros d) d)[(lin p d).toNat] = p := by
+      have := box_getElem_lin hp hd
+      rw [List.getElem?_eq_getElem hi] at this
+      injection this
+    have hset := setUnsafe_ok (⟨d, (box (zeros d) d).map w⟩ : Grid α) hp hd (by simp) (h p (v (σ p)))
+    rw [List.foldlM_cons]
+    show (do
+        let x ← (h p) <$> (⟨d, (box (zeros d) d).map w⟩ : Grid α).getUnsafe (σ p)
+        (⟨d, (box (zeros d) d).map w⟩ : Grid α).setUnsafe p x) >>= _ = _
+    rw [hget]
+    simp only [Functor.map, Except.map, bind, Except.bind]
+    rw [hset]
+    simp only [map_set_nodup _ (nodup_box (length_zeros d)) w _ hi, hidx]
+    have e : (box (zeros d) d).map (fun q => if q = p then h p (v (σ p)) else w q)
+        = (box (zeros d) d).map (fun q => if q ∈ done ++ [p] then h q (v (σ q)) else v q) := by
+      apply List.map_congr_left
+      intro q _
+      by_cases hq : q = p
+      · subst hq; simp
+      · simp [w, hq]
+    rw [e]
+    have := ih (done ++ [p]) (by rw [List.append_assoc]; simpa using hB)
+    simp only [List.append_assoc, List.singleton_append] at this
+    exact this
+
+theorem fillDep_denotes {α : Type} {g : Grid α} {v : Pos → α} (hg : Denotes g v) (σ : Pos → Pos) (h : Pos → α → α)
+    (hσ : ∀ p, InRange g.size p → InRange g.size (σ p) ∧ lin p g.size ≤ lin (σ p) g.size) :
+    g.fillDep (fun g' p => (h p) <$> g'.getUnsafe (σ p))
+      = .ok ⟨g.size, (box (zeros g.size) g.size).map (fun p => h p (v (σ p)))⟩ := by
+  unfold Grid.fillDep
+  have e := posRangeAll_eq g.size hg.1
+  unfold posRangeAll at e
+  rw [e]
+  have hs : g = ⟨g.size, (box (zeros g.size) g.size).map (fun q => if q ∈ ([] : List Pos) then h q (v (σ q)) else v q)⟩ := by
+    rw [grid_eq_iff]
+    exact ⟨rfl, by simpa using hg.2.2⟩
+  have := foldlM_dep g.size hg.1 hg.2.1 v σ h hσ (box (zeros g.size) g.size) [] (by simp)
+  rw [← hs] at this
+  refine this.trans ?_
+  congr 2
+  apply List.map_congr_left
+  intro q hq
+  simp [hq]
 
 end Fcppt.C08
